@@ -236,6 +236,13 @@ TWIN_CASES = [
     ("Row", ["Row('ab', True, decimal.Decimal('1.0'))", "Row('ab', 1, decimal.Decimal('1'))", "Row('ab', 1, decimal.Decimal('1.00'))"]),
     ("typing.Set[decimal.Decimal]", ["{decimal.Decimal('2.50')}", "{decimal.Decimal('2.5')}"]),
     ("typing.Dict[decimal.Decimal, int]", ["{decimal.Decimal('2.50'): 1}", "{decimal.Decimal('2.5'): 1}"]),
+    # classes whose members come from the constructor signature: an UNANNOTATED parameter accepts any value (its default says nothing
+    # about the class of other values), keyword-only parameters are members like the others
+    ("Gauge", ["Gauge('rpm', 3)", "Gauge('rpm', 2.5)", "Gauge('rpm', '7', 12, [1], unit='hz', limit=0.5)", "Gauge('rpm', True, b'x', {'k': 1}, limit='9')"]),
+    ("Reading", ["Reading('t1', 7)", "Reading('t1', 21.75)", "Reading('t1', '5', None)", "Reading('t1', decimal.Decimal('1.50'), [1.5])"]),
+    ("typing.List[Gauge]", ["[Gauge('a', 0.5)]", "[Gauge('a', 1), Gauge('b', '1', unit='s')]"]),
+    ("typing.Dict[str, Reading]", ["{'t1': Reading('t1', 0.25)}", "{'t1': Reading('t1', 0)}"]),
+    ("Window", ["Window(7)", "Window(7, start=datetime.date(2020, 2, 29), span=datetime.timedelta(days=2, microseconds=1))"]),
 ]
 TWIN_SRC = """
 import dataclasses, decimal, fractions, datetime, typing
@@ -252,6 +259,19 @@ class Row(typing.NamedTuple):
     label: str
     count: int
     amount: decimal.Decimal
+import collections
+class _Init:
+    def __eq__(self, other):
+        return type(other) is type(self) and vars(other) == vars(self)
+    def __repr__(self):
+        return f"{type(self).__name__}({', '.join(f'{k}={type(v).__name__}:{v!r}' for k, v in vars(self).items())})"
+class Gauge(_Init):
+    def __init__(self, name: str, scale=1, tag="", items=(), *, unit: str = "rpm", limit=None):
+        self.name, self.scale, self.tag, self.items, self.unit, self.limit = name, scale, tag, items, unit, limit
+class Window(_Init):
+    def __init__(self, ident: int, *, start: datetime.date = datetime.date(1, 1, 1), span: datetime.timedelta = datetime.timedelta(0)):
+        self.ident, self.start, self.span = ident, start, span
+Reading = collections.namedtuple("Reading", ["sensor", "value", "extra"], defaults=[0, ()])
 """
 
 
@@ -292,7 +312,9 @@ def _twin_child(case):
             return [type(x).__name__, sorted(show(e) for e in x)]
         if isinstance(x, dict):
             return ["dict", [[show(k), show(v)] for k, v in x.items()]]
-        if isinstance(x, tuple) and hasattr(x, "_fields") or dataclasses.is_dataclass(x):
+        if isinstance(x, tuple) and hasattr(x, "_fields"):
+            return [type(x).__name__] + [show(getattr(x, n)) for n in x._fields]
+        if dataclasses.is_dataclass(x):
             return [type(x).__name__] + [show(getattr(x, n)) for n in typing.get_type_hints(type(x))]
         if isinstance(x, (list, tuple)):
             return [type(x).__name__] + [show(e) for e in x]
